@@ -16,7 +16,8 @@ package gen
 //	              that has methods, two services with methods in one file;
 //	unspecified – no illegal feature, but something the documentation does not
 //	              cover: an option in an "N/A" cell, the undocumented gorums.rpc
-//	              option, a custom return type that is not another message of
+//	              option, an option written out as "= false", a custom return type
+//	              that is not another message of
 //	              the output type's package, client stream + multicast, hostile
 //	              identifier spellings, empty services / no methods;
 //	legal       – everything else: every method is a row of the option matrix
@@ -432,6 +433,12 @@ func Analyze(d Def) Analysis {
 			case m.RPC:
 				at("rpc-option", "rpcopt", false)
 			}
+			if len(m.False) > 0 {
+				// an option written out as "= false": the documentation only ever shows "= true"
+				fs := append([]string(nil), m.False...)
+				sort.Strings(fs)
+				at("explicit-false="+strings.Join(fs, "+"), "falseopt", false)
+			}
 			// the documented stream/option rules, stated on presence of options
 			if m.Async && !m.Quorumcall {
 				at("async-without-quorumcall", "async", true)
@@ -617,6 +624,8 @@ func fix(d *Def, ft Feature, keepSvc int) {
 		}
 	case "rpcopt":
 		m.RPC = false
+	case "falseopt":
+		m.False = nil
 	case "async":
 		m.Async = false
 	case "pernode":
